@@ -22,7 +22,9 @@ THEOREMS = ["Tx3.sortBy_perm_invariant", "Tx3.sorted_perm_eq", "Tx3.Wire.C18_dir
 RULE = (
     "cases = programs: every /repo/examples/*.tx3 that lowers, plus generated programs (transfer shapes, min_utxo "
     "shapes, 1-3 cardano::withdrawal directives with three fields each and a treasury donation); each lowered and "
-    "encoded 20x in-process, 3x in fresh processes for a quarter of them, TII emitted 3x by the tx3c binary. "
+    "encoded 20x in-process, 3x in fresh processes for a quarter of them, TII emitted 3x by the tx3c binary with its "
+    "default command line and, for two more command lines per program (1-3 --profile flags and 1-2 "
+    "--profile-env-file flags, names from a pool in which some differ only by case), 6x each in fresh processes. "
     "Non-trivial = every case; distinct = distinct program"
 )
 ASSUMPTIONS = ["the tx3c binary is built from /repo's working tree into /verif/.cache/target-tx3c on every run"]
